@@ -245,7 +245,8 @@ def check_stream_class(chk, db, rect, kind, rule, rule_status):
     if not classes:
         chk.unanalysable(rule, rect, 'no instance of %s' % rect)
         return
-    rec_q = classes[0]
+    # the instantiation with the most analysed members (examples instantiate only what they use)
+    rec_q = max(classes, key=lambda c: len({m['n'] + str(len(m['params'])) for m in methods_of(db, c)}))
     methods = methods_of(db, rec_q)
     helpers = one_per_pattern(methods, {'ReturnStatus'})
     if not helpers:
